@@ -14,6 +14,19 @@ import (
 type ModSet struct {
 	All   bool
 	Names map[string]bool
+	Pfx   []string
+}
+
+func (m *ModSet) has(n string) bool {
+	if m.Names[n] {
+		return true
+	}
+	for _, p := range m.Pfx {
+		if strings.HasPrefix(n, p) {
+			return true
+		}
+	}
+	return false
 }
 
 func newModSet() *ModSet { return &ModSet{Names: map[string]bool{}} }
@@ -25,6 +38,18 @@ func (m *ModSet) add(o *ModSet) {
 	for n := range o.Names {
 		m.Names[n] = true
 	}
+	for _, p := range o.Pfx {
+		m.addPfx(p)
+	}
+}
+
+func (m *ModSet) addPfx(p string) {
+	for _, q := range m.Pfx {
+		if q == p {
+			return
+		}
+	}
+	m.Pfx = append(m.Pfx, p)
 }
 
 // staticAddrNames: names written by a store through pointer value p (syntactic).
@@ -157,9 +182,50 @@ type pointMod struct {
 }
 
 // pointMods: modifies entries of the form NAME[expr] (the array changes at that key only).
+// expandStar rewrites "T.*[k]" into one entry per field (nested struct fields keyed by their embedded ref).
+func (g *Gen) expandStar(entries []string) []string {
+	var out []string
+	for _, e := range entries {
+		cond := ""
+		body := e
+		if j := strings.Index(e, " if "); j > 0 {
+			cond = e[j:]
+			body = strings.TrimSpace(e[:j])
+		}
+		i := strings.Index(body, ".*[")
+		if i < 0 || !strings.HasSuffix(body, "]") {
+			out = append(out, e)
+			continue
+		}
+		tn, key := body[:i], body[i+3:len(body)-1]
+		t := g.namedType(tn)
+		if t == nil {
+			out = append(out, e)
+			continue
+		}
+		st, ok := t.Underlying().(*types.Struct)
+		if !ok {
+			out = append(out, e)
+			continue
+		}
+		for j := 0; j < st.NumFields(); j++ {
+			f := st.Field(j)
+			switch kindOf(f.Type()) {
+			case KStruct:
+				inner := typeKey(f.Type())
+				out = append(out, g.expandStar([]string{fmt.Sprintf("%s.*[addr(ptr_%s(%s).%s)]%s", inner, strings.ReplaceAll(tn, ".", "_DOT_"), key, f.Name(), cond)})...)
+			case KArray:
+			default:
+				out = append(out, fmt.Sprintf("%s.%s[%s]%s", tn, f.Name(), key, cond))
+			}
+		}
+	}
+	return out
+}
+
 func (g *Gen) pointMods(fc *FnCtx, sp *FuncSpec) []pointMod {
 	var out []pointMod
-	for _, e := range sp.Modifies {
+	for _, e := range g.expandStar(sp.Modifies) {
 		var cond *SExpr
 		full := e
 		if j := strings.Index(e, " if "); j > 0 {
@@ -198,7 +264,7 @@ func (g *Gen) freshMods(fc *FnCtx, sp *FuncSpec) []string {
 }
 
 func (g *Gen) specModsP(fc *FnCtx, sp *FuncSpec, ms *ModSet, includePoint bool) {
-	for _, e := range sp.Modifies {
+	for _, e := range g.expandStar(sp.Modifies) {
 		if strings.HasPrefix(e, "new ") {
 			if !includePoint {
 				continue
@@ -207,6 +273,10 @@ func (g *Gen) specModsP(fc *FnCtx, sp *FuncSpec, ms *ModSet, includePoint bool) 
 		}
 		if e == "*" {
 			ms.All = true
+			continue
+		}
+		if e == "elems(*)" {
+			ms.addPfx("E!")
 			continue
 		}
 		if j := strings.Index(e, " if "); j > 0 {
@@ -663,7 +733,7 @@ func (fr *Frame) havocCall(in ssa.Instruction, name string, args []Val, resT typ
 		for n := range ms.Names {
 			set[n] = true
 		}
-		nst = st.havocSet(set)
+		nst = st.havocSetP(set, ms.Pfx)
 		fc.note("call of " + name + " without contract: result unconstrained, inferred frame applied")
 	} else {
 		nst = st.havocAll(fc.ghostKeep(ms))
@@ -851,7 +921,7 @@ func (fr *Frame) applyContract(sp *FuncSpec, fn *ssa.Function, name string, pnam
 		for n := range ms.Names {
 			set[n] = true
 		}
-		nst = st.havocSet(set)
+		nst = st.havocSetP(set, ms.Pfx)
 	}
 	if sp.HasMod {
 		for _, n := range fc.g.freshMods(fc, sp) {
